@@ -196,6 +196,11 @@ func run(t *tape.Tape, cfg sim.Config, listen bool) (res sim.Result) {
 		r.ensureTerm = true
 		res.Stat("probe.close_on_context_done_enabled_never_triggered", 1)
 	}
+	if t.Chance(1, 5) {
+		// guest-chosen debug sections (read when a stack trace is built): rows without a file
+		r.dwarf = true
+		res.Stat("probe.degenerate_dwarf_sections", 1)
+	}
 	r.setup([]*plan.Plan{pa, pa, pb}, []string{"a", "", "b"}, []int{-1, -1, 0})
 	defer r.rt.Close(r.ctx)
 	if t.Chance(1, 4) {
@@ -259,20 +264,33 @@ func run(t *tape.Tape, cfg sim.Config, listen bool) (res sim.Result) {
 		var got uint64
 		var err error
 		callCtx, cancelCall := context.WithCancel(r.ctx)
-		if useStack {
-			st := []uint64{uint64(uint32(arg))}
-			err = f.CallWithStack(callCtx, st)
-			got = st[0]
-		} else {
-			var rs []uint64
-			rs, err = f.Call(callCtx, uint64(uint32(arg)))
-			if err == nil {
-				if len(rs) != 1 {
-					res.Fail("result-mismatch", "%s returned %d results", what, len(rs))
-					break
+		escaped := ""
+		func() {
+			// containment: whatever the guest or a host function does, Call returns
+			defer func() {
+				if p := recover(); p != nil {
+					escaped = fmt.Sprint(p)
 				}
-				got = rs[0]
+			}()
+			if useStack {
+				st := []uint64{uint64(uint32(arg))}
+				err = f.CallWithStack(callCtx, st)
+				got = st[0]
+			} else {
+				var rs []uint64
+				rs, err = f.Call(callCtx, uint64(uint32(arg)))
+				if err == nil {
+					if len(rs) != 1 {
+						escaped = fmt.Sprintf("returned %d results", len(rs))
+					} else {
+						got = rs[0]
+					}
+				}
 			}
+		}()
+		if escaped != "" {
+			res.Fail("panic-escaped-call", "%s: a Go panic left api.Function.Call instead of an error (model predicts %s): %s", what, mfail, escaped)
+			break
 		}
 		cancelCall() // the usual "defer cancel()": the call is over, nothing may react to this any more
 		if err != nil && r.ensureTerm && r.termWaits < 2 && !r.mods[k].IsClosed() {
@@ -377,7 +395,7 @@ func (r *runner) laterInstantiation(pa, pb *plan.Plan, step int) {
 	r.w.Depth, r.w.MaxDepthSeen = 0, 0
 	// the instance is visible to the scripted host (re-entry / close-other targets) only after success
 	_, mfail := r.w.APICall(in, p.StartFn, p.StartArg)
-	cm, err := r.rt.CompileModule(r.ctx, p.Encode())
+	cm, err := r.rt.CompileModule(r.ctx, r.enc(p))
 	if err != nil {
 		panic(fmt.Sprintf("harness: start plan does not compile: %v", err))
 	}
